@@ -28,6 +28,7 @@ func main() {
 	runMatrix()
 	runArgProducts()
 	runViews()
+	runBoolMaps()
 	runArray()
 	runArrayArgProducts(chk.Pick(2, 4))
 	chk.Finish()
@@ -1038,6 +1039,12 @@ func replay(path string) {
 		argOne(chk.NewLocal(), c)
 		fmt.Printf("replay %s%v on %dx%d content %d\n", c.Op, c.Args, c.W, c.H, c.Init)
 		chk.Count("evaluations", 1)
+		return
+	} else if k == "boolmap" {
+		var c boolMapCase
+		mc.LoadReplay(path, &c)
+		boolMapOne(chk.NewLocal(), c)
+		fmt.Printf("replay ParseBoolMap %+v\n", c)
 		return
 	} else if k == "view" {
 		var c viewCase
